@@ -142,7 +142,7 @@ SPECS["C07"] = {
 }
 SPECS["C19"] = {
     "quick": [F("ktree", "fl,fle,fleby,get,o_cap"), F("klist", "fl,fle,fleby,get,o_cap"), K("ktree", 4, 2, KA + ",o_cap"), K("ktree", 3, 2, KA + ",o_cap"), K("klist", 3, 2, KA + ",o_cap"), K("ktree", 8, 0, "fleby,clear,o_cap", mode="shape"), SW("export-sizes", kmax=14, as_gb=6)],
-    "thorough": [F("ktree", "fl,fle,fleby,get,o_cap"), F("klist", "fl,fle,fleby,get,o_cap"), K("ktree", 4, 3, KA + ",o_cap"), K("ktree", 9, 1, "fleby,o_cap", mode="shape", cap_s=900), SW("export-sizes", kmax=21, list_max=8192, as_gb=8)],
+    "thorough": [SW("export-sizes", kmax=12, grow=70000, as_gb=8, label="expiring tree / list: growth steps above 65536 slots"), F("ktree", "fl,fle,fleby,get,o_cap"), F("klist", "fl,fle,fleby,get,o_cap"), K("ktree", 4, 3, KA + ",o_cap"), K("ktree", 9, 1, "fleby,o_cap", mode="shape", cap_s=900), SW("export-sizes", kmax=21, list_max=8192, as_gb=8)],
 }
 SPECS["C20"] = {
     "quick": [K("ktree", 3, 2, KA + ",o_log", quq=1, tail2=2), K("ktree", 2, 2, KA + ",o_log", quq=2), K("klist", 2, 2, KA + ",o_log", quq=2), K("ktree", 2, 2, KA + ",o_log", deep=3), K("ktree", 3, 3, KA + ",o_log", audit=1), K("ktree", 3, 3, KA + ",o_log", tbase=252), K("klist", 3, 3, KA + ",o_log", tbase=252), K("ktree", 5, 1, "fleby,get,o_log"), F("ktree", "fl,fle,fleby,get,o_log"), F("klist", "fl,fle,fleby,get,o_log"), K("ktree", 3, 3, KA + ",o_log", tbase=251), K("klist", 3, 3, KA + ",o_log", tbase=251), K("ktree", 4, 3, KA + ",o_log"), K("ktree", 3, 3, KA + ",o_log"), K("klist", 3, 3, KA + ",o_log"), K("ktree", 3, 2, KA + ",o_log", mode="full")],
@@ -186,7 +186,7 @@ SPECS["C11"] = {
               M("maptree", 4, MA + ",o_arena", hint=0), M("settree", 4, MA + ",o_arena", hint=1), K("ktree", 3, 2, KA + ",o_arena", hint=0),
               M("maptree", 10, "del,clear,o_arena", mode="shape"), M("settree", 10, "del,clear,o_arena", mode="shape", hint=9), K("ktree", 8, 0, "fleby,clear,o_arena", mode="shape", hint=9),
               M("maptree", 4, MA + ",o_arena", hint=64), K("ktree", 3, 2, KA + ",o_arena", hint=64)],
-    "thorough": [SW("bigtree", sys="settree", sizes="500,1023,1024,1025,3000,10000,65537", label="bigtree settree<u32,u32>: 450+ long histories on trees of 500 ... 10000 (thorough 65537) entries, hints 0/1/8/9/1025: fill, thin out to 0/1/10/50/100 %, clear, refill with twice as many, drain"), SW("bigtree", sys="maptree", sizes="500,1023,1024,1025,3000,10000,65537", label="bigtree maptree<u32,u32>: 450+ long histories on trees of 500 ... 10000 (thorough 65537) entries, hints 0/1/8/9/1025: fill, thin out to 0/1/10/50/100 %, clear, refill with twice as many, drain"), M("maptree", 4, MA + ",o_arena", hint=1000), K("ktree", 3, 2, KA + ",o_arena", hint=1000), M("maptree", 14, "del,clear,o_arena", mode="shape", cap_s=1500), M("settree", 14, "del,clear,o_arena", mode="shape", hint=9, cap_s=1500), K("ktree", 5, 1, "get,o_arena"), F("maptree", MA + ",o_arena"), F("settree", MA + ",o_arena", hint=9), F("ktree", "fl,fle,fleby,get,o_arena"), F("maptree", MA + ",o_arena", hint=64, sizes="48,64,65,100"), M("maptree", 7, MA + ",o_arena"), M("settree", 7, MA + ",o_arena"), K("ktree", 4, 4, KA + ",o_arena"),
+    "thorough": [SW("bigtree", sys="maptree", sizes="262145", label="bigtree maptree<u32,u32>: 262145 entries (tree height above 32)"), SW("bigtree", sys="settree", sizes="262145", label="bigtree settree<u32,u32>: 262145 entries"), SW("export-sizes", kmax=12, grow=70000, as_gb=8, label="expiring tree / list: growth steps above 65536 slots (70000 inserts, clear, 140010 inserts; hint 70001 then 140003 inserts)"), SW("bigtree", sys="settree", sizes="500,1023,1024,1025,3000,10000,65537", label="bigtree settree<u32,u32>: 450+ long histories on trees of 500 ... 10000 (thorough 65537) entries, hints 0/1/8/9/1025: fill, thin out to 0/1/10/50/100 %, clear, refill with twice as many, drain"), SW("bigtree", sys="maptree", sizes="500,1023,1024,1025,3000,10000,65537", label="bigtree maptree<u32,u32>: 450+ long histories on trees of 500 ... 10000 (thorough 65537) entries, hints 0/1/8/9/1025: fill, thin out to 0/1/10/50/100 %, clear, refill with twice as many, drain"), M("maptree", 4, MA + ",o_arena", hint=1000), K("ktree", 3, 2, KA + ",o_arena", hint=1000), M("maptree", 14, "del,clear,o_arena", mode="shape", cap_s=1500), M("settree", 14, "del,clear,o_arena", mode="shape", hint=9, cap_s=1500), K("ktree", 5, 1, "get,o_arena"), F("maptree", MA + ",o_arena"), F("settree", MA + ",o_arena", hint=9), F("ktree", "fl,fle,fleby,get,o_arena"), F("maptree", MA + ",o_arena", hint=64, sizes="48,64,65,100"), M("maptree", 7, MA + ",o_arena"), M("settree", 7, MA + ",o_arena"), K("ktree", 4, 4, KA + ",o_arena"),
                  M("maptree", 6, MA + ",o_arena", hint=0), M("settree", 6, MA + ",o_arena", hint=1), K("ktree", 4, 3, KA + ",o_arena", hint=1),
                  M("maptree", 12, "del,clear,o_arena", mode="shape"), M("maptree", 12, "del,clear,o_arena", mode="shape", hint=9), M("settree", 12, "del,clear,o_arena", mode="shape", hint=9),
                  K("ktree", 9, 1, "fleby,clear,o_arena", mode="shape", hint=9, cap_s=900), M("settree", 6, MA + ",o_arena", hint=64), K("ktree", 4, 3, KA + ",o_arena", hint=64)],
@@ -195,7 +195,7 @@ SPECS["C12"] = {
     "quick": [SW("bigtree", sys="settree", sizes="500,1023,1024,1025,3000,10000", label="bigtree settree<u32,u32>: 450+ long histories on trees of 500 ... 10000 (thorough 65537) entries, hints 0/1/8/9/1025: fill, thin out to 0/1/10/50/100 %, clear, refill with twice as many, drain"), SW("bigtree", sys="maptree", sizes="500,1023,1024,1025,3000,10000", label="bigtree maptree<u32,u32>: 450+ long histories on trees of 500 ... 10000 (thorough 65537) entries, hints 0/1/8/9/1025: fill, thin out to 0/1/10/50/100 %, clear, refill with twice as many, drain"), M("maptree", 3, MA + ",o_twin,o_ref,o_handle", quq=1, cs=2), M("settree", 3, MA + ",o_twin,o_ref,o_handle", quq=1, cs=2), M("maptree", 3, MA + ",o_twin,o_ref,o_handle", quq=2), K("ktree", 2, 2, KA + ",o_twin,o_pred", quq=2), M("maptree", 3, MA + ",o_twin,o_ref,o_handle", deep=3), K("ktree", 2, 2, KA + ",o_twin,o_pred", deep=3), K("ktree", 3, 2, KA + ",o_twin,o_pred", audit=1), M("maptree", 4, MA + ",o_twin,o_ref,o_handle", audit=1), F("maptree", MA + ",o_twin,o_ref,o_handle"), F("settree", MA + ",o_twin,o_ref,o_handle", hint=9), F("maplist", MA + ",o_twin,o_ref,o_handle", sizes="9,17,33,65"), F("setlist", MA + ",o_twin,o_ref,o_handle", sizes="9,17,33,65"), F("ktree", "fl,fle,fleby,get,o_twin,o_pred"), F("klist", "fl,fle,fleby,get,o_twin,o_pred"), FS(0, 31, "o_query,o_twin"), FS(-7, 92, "o_query,o_twin"), K("klist", 3, 3, KA + ",o_twin,o_pred", tbase=252), K("ktree", 3, 3, KA + ",o_twin,o_pred", tbase=252), K("ktree", 4, 2, KA + ",o_twin,o_pred"), M("maptree", 4, MA + ",o_twin,o_ref,o_handle"), M("settree", 4, MA + ",o_twin,o_ref,o_handle"), M("maplist", 4, MA + ",o_twin,o_ref,o_handle"), M("setlist", 4, MA + ",o_twin,o_ref,o_handle"),
               K("ktree", 3, 2, KA + ",o_twin,o_pred"), K("klist", 3, 2, KA + ",o_twin,o_pred"), S(0, 31, SA + ",o_twin,o_query"), S(-7, 92, SA + ",o_twin,o_query"),
               M("maptree", 10, "del,clear,o_twin,o_ref", mode="shape"), M("settree", 10, "del,clear,o_twin,o_ref", mode="shape", hint=9), K("ktree", 8, 0, "fleby,clear,o_twin,o_pred", mode="shape")],
-    "thorough": [SW("bigtree", sys="settree", sizes="500,1023,1024,1025,3000,10000,65537", label="bigtree settree<u32,u32>: 450+ long histories on trees of 500 ... 10000 (thorough 65537) entries, hints 0/1/8/9/1025: fill, thin out to 0/1/10/50/100 %, clear, refill with twice as many, drain"), SW("bigtree", sys="maptree", sizes="500,1023,1024,1025,3000,10000,65537", label="bigtree maptree<u32,u32>: 450+ long histories on trees of 500 ... 10000 (thorough 65537) entries, hints 0/1/8/9/1025: fill, thin out to 0/1/10/50/100 %, clear, refill with twice as many, drain"), M("maptree", 3, MA + ",o_twin,o_ref,o_handle", quq=1, cs=2), M("settree", 3, MA + ",o_twin,o_ref,o_handle", quq=1, cs=2), M("maptree", 13, "del,clear,o_twin,o_ref", mode="shape", cap_s=1500), M("maptree", 3, MA + ",o_twin,o_ref,o_handle", quq=2), K("ktree", 2, 2, KA + ",o_twin,o_pred", quq=2), M("maptree", 3, MA + ",o_twin,o_ref,o_handle", deep=3), K("ktree", 2, 2, KA + ",o_twin,o_pred", deep=3), K("ktree", 3, 2, KA + ",o_twin,o_pred", audit=1), M("maptree", 4, MA + ",o_twin,o_ref,o_handle", audit=1), F("maptree", MA + ",o_twin,o_ref,o_handle"), F("settree", MA + ",o_twin,o_ref,o_handle", hint=9), F("maplist", MA + ",o_twin,o_ref,o_handle", sizes="9,17,33,65"), F("setlist", MA + ",o_twin,o_ref,o_handle", sizes="9,17,33,65"), F("ktree", "fl,fle,fleby,get,o_twin,o_pred"), F("klist", "fl,fle,fleby,get,o_twin,o_pred"), FS(0, 31, "o_query,o_twin"), FS(-7, 92, "o_query,o_twin"), K("klist", 3, 3, KA + ",o_twin,o_pred", tbase=252), K("ktree", 3, 3, KA + ",o_twin,o_pred", tbase=252), M("maptree", 6, MA + ",o_twin,o_ref,o_handle"), M("settree", 6, MA + ",o_twin,o_ref,o_handle"), M("maplist", 6, MAW + ",o_twin,o_ref,o_handle"), M("setlist", 6, MAW + ",o_twin,o_ref,o_handle"),
+    "thorough": [SW("bigtree", sys="maptree", sizes="262145", label="bigtree maptree<u32,u32>: 262145 entries (tree height above 32)"), SW("bigtree", sys="settree", sizes="500,1023,1024,1025,3000,10000,65537", label="bigtree settree<u32,u32>: 450+ long histories on trees of 500 ... 10000 (thorough 65537) entries, hints 0/1/8/9/1025: fill, thin out to 0/1/10/50/100 %, clear, refill with twice as many, drain"), SW("bigtree", sys="maptree", sizes="500,1023,1024,1025,3000,10000,65537", label="bigtree maptree<u32,u32>: 450+ long histories on trees of 500 ... 10000 (thorough 65537) entries, hints 0/1/8/9/1025: fill, thin out to 0/1/10/50/100 %, clear, refill with twice as many, drain"), M("maptree", 3, MA + ",o_twin,o_ref,o_handle", quq=1, cs=2), M("settree", 3, MA + ",o_twin,o_ref,o_handle", quq=1, cs=2), M("maptree", 13, "del,clear,o_twin,o_ref", mode="shape", cap_s=1500), M("maptree", 3, MA + ",o_twin,o_ref,o_handle", quq=2), K("ktree", 2, 2, KA + ",o_twin,o_pred", quq=2), M("maptree", 3, MA + ",o_twin,o_ref,o_handle", deep=3), K("ktree", 2, 2, KA + ",o_twin,o_pred", deep=3), K("ktree", 3, 2, KA + ",o_twin,o_pred", audit=1), M("maptree", 4, MA + ",o_twin,o_ref,o_handle", audit=1), F("maptree", MA + ",o_twin,o_ref,o_handle"), F("settree", MA + ",o_twin,o_ref,o_handle", hint=9), F("maplist", MA + ",o_twin,o_ref,o_handle", sizes="9,17,33,65"), F("setlist", MA + ",o_twin,o_ref,o_handle", sizes="9,17,33,65"), F("ktree", "fl,fle,fleby,get,o_twin,o_pred"), F("klist", "fl,fle,fleby,get,o_twin,o_pred"), FS(0, 31, "o_query,o_twin"), FS(-7, 92, "o_query,o_twin"), K("klist", 3, 3, KA + ",o_twin,o_pred", tbase=252), K("ktree", 3, 3, KA + ",o_twin,o_pred", tbase=252), M("maptree", 6, MA + ",o_twin,o_ref,o_handle"), M("settree", 6, MA + ",o_twin,o_ref,o_handle"), M("maplist", 6, MAW + ",o_twin,o_ref,o_handle"), M("setlist", 6, MAW + ",o_twin,o_ref,o_handle"),
                  K("ktree", 4, 3, KA + ",o_twin,o_pred"), K("klist", 4, 4, KA + ",o_twin,o_pred"), S(0, 31, SA + ",o_twin,o_query", pop=3, cap_s=900), S(-7, 92, SA + ",o_twin,o_query"), S(0, 16, SA + ",o_twin,o_query"),
                  M("maptree", 12, "del,clear,o_twin,o_ref", mode="shape"), M("settree", 12, "del,clear,o_twin,o_ref", mode="shape", hint=9), K("ktree", 9, 1, "fleby,clear,o_twin,o_pred", mode="shape", cap_s=900)],
 }
@@ -231,7 +231,7 @@ INJ_K = KA + ",o_pred,o_rb,o_arena"
 SPECS["C18"] = {
     "quick": [M("maptree", 4, INJ_M, pay="track", inject=1), M("settree", 4, INJ_M, pay="track", inject=1), K("ktree", 8, 0, "fleby,clear,o_pred,o_rb,o_arena", mode="shape", inject=1), FS(0, 31, "o_query,o_struct", inject=1), FS(-7, 92, "o_query,o_struct", inject=1), F("maptree", INJ_M, sizes="9,16,17", inject=1), F("settree", INJ_M, sizes="9,16,17", inject=1), F("maplist", INJ_M, sizes="9,17", inject=1), F("setlist", INJ_M, sizes="9,17", inject=1), F("ktree", "fl,fle,fleby,get,o_pred,o_rb,o_arena", sizes="9,16,17", inject=1), F("klist", "fl,fle,fleby,get,o_pred,o_rb", sizes="9,17", inject=1), K("ktree", 4, 1, INJ_K, inject=1), M("maptree", 4, INJ_M, inject=1), M("settree", 4, INJ_M, inject=1), M("maplist", 4, INJ_M, inject=1), M("setlist", 4, INJ_M, inject=1),
               K("ktree", 3, 2, INJ_K, inject=1), K("klist", 3, 2, INJ_K, inject=1), S(0, 31, SA + ",o_query,o_struct", inject=1), S(-7, 92, SA + ",o_query,o_struct", inject=1)],
-    "thorough": [M("maptree", 4, INJ_M, pay="track", inject=1), M("settree", 4, INJ_M, pay="track", inject=1), FS(0, 31, "o_query,o_struct", inject=1), FS(-7, 92, "o_query,o_struct", inject=1), F("maptree", INJ_M, sizes="9,16,17", inject=1), F("settree", INJ_M, sizes="9,16,17", inject=1), F("maplist", INJ_M, sizes="9,17", inject=1), F("setlist", INJ_M, sizes="9,17", inject=1), F("ktree", "fl,fle,fleby,get,o_pred,o_rb,o_arena", sizes="9,16,17", inject=1), F("klist", "fl,fle,fleby,get,o_pred,o_rb", sizes="9,17", inject=1), M("maptree", 5, INJ_M, inject=1), M("settree", 5, INJ_M, inject=1), M("maptree", 4, MA + ",o_ref,o_handle,o_rb,o_arena", inject=2), M("settree", 4, MA + ",o_ref,o_handle,o_rb,o_arena", inject=2),
+    "thorough": [M("maptree", 4, INJ_M, pay="track", inject=1), M("settree", 4, INJ_M, pay="track", inject=1), FS(0, 31, "o_query,o_struct", inject=1), FS(-7, 92, "o_query,o_struct", inject=1), F("maptree", INJ_M, sizes="9,16,17", inject=1), F("settree", INJ_M, sizes="9,16,17", inject=1), F("maplist", INJ_M, sizes="9,17,33,40", inject=1), F("setlist", INJ_M, sizes="9,17,33,40", inject=1), F("ktree", "fl,fle,fleby,get,o_pred,o_rb,o_arena", sizes="9,16,17", inject=1), F("klist", "fl,fle,fleby,get,o_pred,o_rb", sizes="9,17,33,40", inject=1), M("maptree", 5, INJ_M, inject=1), M("settree", 5, INJ_M, inject=1), M("maptree", 4, MA + ",o_ref,o_handle,o_rb,o_arena", inject=2), M("settree", 4, MA + ",o_ref,o_handle,o_rb,o_arena", inject=2),
                  M("maplist", 5, INJ_M, inject=2), M("setlist", 5, INJ_M, inject=2), M("maptree", 4, INJ_M, pay="heap", inject=1),
                  K("ktree", 3, 3, INJ_K, inject=1), K("ktree", 3, 2, INJ_K, inject=2, cap_s=1200), K("klist", 3, 3, INJ_K, inject=2), K("ktree", 8, 0, "fleby,clear,o_pred,o_rb,o_arena", mode="shape", inject=1, cap_s=900),
                  S(0, 31, SA + ",o_query,o_struct", inject=2, cap_s=1200), S(-7, 92, SA + ",o_query,o_struct", inject=1), S(0, 16, SA + ",o_query,o_struct", inject=1)],
@@ -245,7 +245,7 @@ SPECS["C10"] = {
               S(0, 16, SA + ",o_query", crash=1), S(0, 31, SA + ",o_query", crash=1), S(-7, 92, SA + ",o_query", crash=1), S(-(1 << 31), (1 << 31) - 1, SA + ",o_query", crash=1),
               SW("layout", lmax=600, all_coords=600, label="layout sweep (constructor and edge coordinates, process outcome only)"), SW("dpairs", lo=0, hi=128, label="all insert x query range pairs on [0,128] (process outcome)"),
               SW("niche", type="key", label="KeyExpTree::new with a key type that has no all-zero value"), SW("niche", type="val", label="KeyExpTree::new with a value type that has no all-zero value"), SW("niche", type="list", label="KeyExpList with the same key type")],
-    "thorough": [SW("bigtree", sys="settree", sizes="500,1023,1024,1025,3000,10000,65537", label="bigtree settree<u32,u32>: 450+ long histories on trees of 500 ... 10000 (thorough 65537) entries, hints 0/1/8/9/1025: fill, thin out to 0/1/10/50/100 %, clear, refill with twice as many, drain"), SW("bigtree", sys="maptree", sizes="500,1023,1024,1025,3000,10000,65537", label="bigtree maptree<u32,u32>: 450+ long histories on trees of 500 ... 10000 (thorough 65537) entries, hints 0/1/8/9/1025: fill, thin out to 0/1/10/50/100 %, clear, refill with twice as many, drain"), F("maptree", ALL_M, crash=1, sparse=1), F("settree", ALL_M, crash=1, sparse=1), M("maptree", 3, ALL_M, crash=1, hint=1000), M("settree", 3, ALL_M, crash=1, hint=1000), K("ktree", 3, 2, ALL_K, crash=1, hint=1000), M("maptree", 14, "del,delh,clear,o_handle", mode="shape", crash=1, cap_s=1500), M("settree", 14, "del,delh,clear,o_neigh", mode="shape", crash=1, hint=9, cap_s=1500), M("maptree", 3, ALL_M, crash=1, quq=2), M("settree", 3, ALL_M, crash=1, quq=2), K("ktree", 2, 2, ALL_K, crash=1, quq=2), M("maptree", 4, ALL_M, crash=1, pay="track"), M("settree", 4, ALL_M, crash=1, pay="track"), FS(0, 31, "o_query", crash=1), FS(-1000, 3095, "o_query", crash=1), K("ktree", 3, 3, ALL_K, crash=1, tbase=252), K("klist", 3, 3, ALL_K, crash=1, tbase=252), F("maptree", ALL_M, crash=1), F("settree", ALL_M, crash=1), F("ktree", "fl,fle,fleby,get,o_pred,o_get,o_export", crash=1), M("maptree", 7, MA + ",o_ref,o_handle,o_hstab", crash=1), M("settree", 7, MA + ",o_ref,o_handle,o_neigh,o_hstab", crash=1), M("maplist", 7, ALL_M, crash=1), M("setlist", 7, ALL_M, crash=1),
+    "thorough": [SW("bigtree", sys="maptree", sizes="262145", label="bigtree maptree<u32,u32>: 262145 entries"), SW("export-sizes", kmax=12, grow=70000, as_gb=8, label="expiring tree / list: growth steps above 65536 slots"), SW("bigtree", sys="settree", sizes="500,1023,1024,1025,3000,10000,65537", label="bigtree settree<u32,u32>: 450+ long histories on trees of 500 ... 10000 (thorough 65537) entries, hints 0/1/8/9/1025: fill, thin out to 0/1/10/50/100 %, clear, refill with twice as many, drain"), SW("bigtree", sys="maptree", sizes="500,1023,1024,1025,3000,10000,65537", label="bigtree maptree<u32,u32>: 450+ long histories on trees of 500 ... 10000 (thorough 65537) entries, hints 0/1/8/9/1025: fill, thin out to 0/1/10/50/100 %, clear, refill with twice as many, drain"), F("maptree", ALL_M, crash=1, sparse=1), F("settree", ALL_M, crash=1, sparse=1), M("maptree", 3, ALL_M, crash=1, hint=1000), M("settree", 3, ALL_M, crash=1, hint=1000), K("ktree", 3, 2, ALL_K, crash=1, hint=1000), M("maptree", 14, "del,delh,clear,o_handle", mode="shape", crash=1, cap_s=1500), M("settree", 14, "del,delh,clear,o_neigh", mode="shape", crash=1, hint=9, cap_s=1500), M("maptree", 3, ALL_M, crash=1, quq=2), M("settree", 3, ALL_M, crash=1, quq=2), K("ktree", 2, 2, ALL_K, crash=1, quq=2), M("maptree", 4, ALL_M, crash=1, pay="track"), M("settree", 4, ALL_M, crash=1, pay="track"), FS(0, 31, "o_query", crash=1), FS(-1000, 3095, "o_query", crash=1), K("ktree", 3, 3, ALL_K, crash=1, tbase=252), K("klist", 3, 3, ALL_K, crash=1, tbase=252), F("maptree", ALL_M, crash=1), F("settree", ALL_M, crash=1), F("ktree", "fl,fle,fleby,get,o_pred,o_get,o_export", crash=1), M("maptree", 7, MA + ",o_ref,o_handle,o_hstab", crash=1), M("settree", 7, MA + ",o_ref,o_handle,o_neigh,o_hstab", crash=1), M("maplist", 7, ALL_M, crash=1), M("setlist", 7, ALL_M, crash=1),
                  M("maptree", 5, ALL_M, crash=1, hint=0, pay="heap"), M("settree", 6, ALL_M, crash=1, hint=1, pay="bare"), M("maptree", 12, "del,delh,clear,o_handle", mode="shape", crash=1, hint=9), M("settree", 12, "del,delh,clear,o_neigh", mode="shape", crash=1, hint=9), M("settree", 5, ALL_M, crash=1, hint=64),
                  K("ktree", 4, 4, ALL_K, crash=1, cap_s=1200), K("klist", 4, 4, ALL_K, crash=1), K("ktree", 4, 3, ALL_K, crash=1, hint=0), K("ktree", 3, 3, ALL_K, crash=1, mode="full"), K("ktree", 9, 1, "fleby,get,clear,o_export", mode="shape", crash=1, hint=9, cap_s=900),
                  ] + [S(lo, hi, SA + ",o_query", crash=1) for (lo, hi) in DOMAINS_T] + [S(0, (1 << 32) - 1, SA + ",o_query", crash=1, coord="u32"), S(-(1 << 40), (1 << 40) + 5, SA + ",o_query", crash=1, coord="i64"),
